@@ -410,7 +410,7 @@ func (e *Engine) appendOp(st *State, a, b Slice, ci ssa.CallInstruction) Value {
 }
 
 func (e *Engine) noteWrite(st *State, obj int, what string) {
-	if st.sharedMax != 0 && obj != 0 && obj <= st.sharedMax && st.onceDepth == 0 && st.lockDepth == 0 {
+	if st.sharedMax != 0 && obj != 0 && st.isShared(obj) && st.onceDepth == 0 && st.lockDepth == 0 {
 		e.sharedWrite(st, obj, what)
 	}
 }
